@@ -334,6 +334,15 @@ def _find_model_small(facts: Facts, violated: Lin, lo: int = -3, hi: int = 9, li
 
 
 # ----------------------------------------------------------------------------- abstract values
+class RecV:
+    """a value of a small record class of the repository (NamedTuple / dataclass): its fields hold abstract values"""
+    def __init__(self, cls, fields: dict):
+        self.cls, self.fields = cls, fields
+
+    def __repr__(self):
+        return f"{getattr(self.cls, 'name', '?')}({', '.join(f'{k}={v!r}' for k, v in self.fields.items())})"
+
+
 @dataclass
 class Tup:
     items: list[Any]
@@ -475,6 +484,8 @@ def evaluate(env: Env, e: ast.AST) -> Any:
             return env.vars[e.id]
         return env.symbol(e.id)
     if isinstance(e, ast.Attribute):
+        if isinstance(e.value, ast.Name) and isinstance(env.vars.get(e.value.id), RecV):
+            return env.vars[e.value.id].fields.get(e.attr, Opaque("attr of a record"))
         p = attr_path(e)
         if p is not None:
             if p in env.vars:
